@@ -206,6 +206,8 @@ class Interp(MiniEval):
         return super().ev(e)
 
     def getattr(self, base, attr, text=''):
+        if base is None:
+            raise Raised('AttributeError')       # None has no such attribute: what the analysed code would raise
         if isinstance(base, ModRef):
             key = f'{base.name}.{attr}'
             if key in self.stubs:
@@ -264,6 +266,9 @@ class Interp(MiniEval):
             raise Unsupported(f'{base.qual}.{attr}')
         if isinstance(base, Sym):
             return Sym(f'{base.name}.{attr}')
+        if getattr(type(base), '_is_abstract_node', False) and attr in ('parent', 'next_sibling', 'previous_sibling', 'next_element',
+                                                                       'previous_element', 'name', 'kind'):
+            return getattr(base, attr)
         if isinstance(base, (str, dict, list, tuple, set, frozenset)) and attr in miniev.SAFE_METHODS:
             return getattr(base, attr)
         raise Unsupported(f'attribute {text or attr}')
@@ -356,7 +361,7 @@ class Interp(MiniEval):
                 if not isinstance(v, (Obj, Sym)) and isinstance(v, k):
                     return True
             elif isinstance(k, Sym):
-                tag = object.__getattribute__(v, '_fields').get('__isa__', ()) if isinstance(v, Obj) else ()
+                tag = object.__getattribute__(v, '_fields').get('__isa__', ()) if isinstance(v, Obj) else getattr(v, '__isa__', ())
                 if k.name in tag:
                     return True
                 # abstract base classes of the standard library, for the concrete values the tables use
